@@ -163,3 +163,7 @@ Definition unclaimed_readers (bin : bool) (all : vprops) (bs : list built) (todo
 
 (* the integer an ascii index token of item type lt denotes (int: signed, uint: unsigned) *)
 Definition idx_ascii (lt : sty) (w : N) : Z := match lt with Int => signed32 w | _ => Z.of_N w end.
+
+(* the value the specification assigns to member m of a group whose common type is t, for record vals *)
+Definition member_value (ps : vprops) (vals : list N) (t : sty) (m : string) : result N :=
+  match field_word ps vals m with Some (_, w) => mesh_value t w | None => Err ECrash end.
